@@ -11,6 +11,7 @@ from ..patterns import (Cmp, assigns_to, calls_in, check_no_arg_mutation,
                         check_warn_calls, conjuncts, finfo, returns_of,
                         subscript_stores)
 from .msm_common import BU, LM
+from ..match import C, CS
 
 EXPLANATION = (
     'Static decision of the structural necessary conditions of the reversible '
@@ -327,7 +328,7 @@ def d5_result(ck, mod, fn, impl):
         ok = len(ss) == 1 and u(ss[0].value) == '%s.sum(axis=1)' % src
         ck.check(ok, rule + '.init', mod, ss[0] if ss else fn, fn.name, u(ss[0]) if ss else nm, '%s = row sums of %s' % (nm, src),
                  '%s must be %s.sum(axis=1)' % (nm, src))
-        pos = [s for s in walk_local(fn) if isinstance(s, ast.Assert) and u(s.test) == 'np.all(%s > 0)' % nm]
+        pos = [s for s in walk_local(fn) if isinstance(s, ast.Assert) and u(s.test) in CS('np.all(%s > 0)' % nm, '(%s > 0).all()' % nm)]
         ck.check(len(pos) == 1, rule + '.precondition', mod, pos[0] if pos else fn, fn.name, 'assert np.all(%s > 0)' % nm,
                  'every state has counts (precondition after trimming)', 'the estimator must reject states without counts')
 
